@@ -549,6 +549,8 @@ Proof.
   - cbn [fst]. destruct (get_op c id) as [o|] eqn:Ho; [|apply step_ok_same; reflexivity].
     apply step_ok_frame. apply frame_op_update with (id := id) (o := o); [exact Ho|apply rel_with_flags].
   - cbn [fst]. apply step_ok_same; reflexivity.
+  - destruct (get_op c id) as [o|] eqn:Ho; cbn [fst]; [|apply step_ok_same; reflexivity].
+    apply step_ok_frame. apply frame_op_update with (id := id) (o := o); [exact Ho|apply rel_poke_op].
 Qed.
 
 (* ---------- the statements ---------- *)
@@ -607,6 +609,8 @@ Proof.
   - cbn [fst]. destruct (get_op c id) as [o|] eqn:Ho; [|exact R].
     apply (fr_rec _ _ (frame_op_update c id o _ Ho (rel_with_flags o (o_old o) true)) R).
   - cbn [fst]. eapply Rec_same; [| |exact R]; reflexivity.
+  - destruct (get_op c id) as [o|] eqn:Ho; cbn [fst]; [|exact R].
+    apply (fr_rec _ _ (frame_op_update c id o _ Ho (rel_poke_op c o k)) R).
 Qed.
 
 Lemma records_truthful_pf maxw es : Rec (run_state ctl_step (init maxw) es).
